@@ -26,6 +26,13 @@ Fuel: `_resolve_identifier` recurses (a) into the value of the binding it found,
 The same fuel bounds `_resolve_target_set` (recursion through resolved identifiers, guarded by its
 own `visited` set in Python) and nested `with` bodies in `__getitem__`; those are bounded by the
 size of the program, so they never run out for `fuel ≥ size`.
+
+Entry points for other models (C11 edits through a reference): `resolveId fuel st name chain [] []`
+returns the resolved value TOGETHER with the id of the defining binding (`RR.ok val bid`), which is
+what `Identifier.value.setter` assigns to; `valueOfWith (resolveId fuel) st e` is `e.value`;
+`implTraverse fuel prog st path` is one `src[…]….value` and returns the store for the next
+traversal of the same document; `scopesForOwner` / `getitemSet` are `scopes_for_owner` /
+`AttributeSet.__getitem__`. Nothing here depends on Mathlib or on the spec.
 -/
 namespace Nima.Scope
 open Nima
